@@ -7,7 +7,7 @@
   C15.C  call frames record the CallFunction opcode position; the error trace walks frames innermost first.
   C15.K  compile errors raised inside Compiler carry the current card (Compiler::trace()).
 """
-from cao.facts import hir_walk, hir_callee, hir_strip, hir_local_id, pat_variants, short, block_exprs, AnchorMissing
+from cao.facts import hir_walk, hir_callee, hir_strip, hir_local_id, pat_variants, short, block_exprs, AnchorMissing, pat_bindings
 from cao.rules import Rule, ok, bad, undecided, note
 from cao import cardshape as cs
 from cao import compwalk as cw
@@ -360,9 +360,85 @@ def rule_k(F):
     return res
 
 
+# ---------------------------------------------------------------------------------------------------
+# C15.F  every active call frame contributes one trace entry
+# ---------------------------------------------------------------------------------------------------
+
+def rule_f(F):
+    """In the error constructor of Vm::_run (the closure that walks the call stack): inside the loop over the call
+    stack, the push of a trace entry may only be conditional on the lookup of that frame's call position in
+    program.trace succeeding; the loop body has no `continue`, `break` or `return`, and no other condition."""
+    res = []
+    run = F.fn("vm::Vm::_run")
+    loops = []
+    for x in hir_walk(run.hir["body"]):
+        if x.get("k") == "match" and str(x.get("source", "")).startswith("ForLoopDesugar"):
+            scrut = hir_strip(x["scrut"])
+            if scrut.get("k") == "call" and scrut["args"]:
+                it = hu.strip_casts(scrut["args"][0])
+                if any(y.get("k") == "mcall" and y["name"] in ("iter_backwards", "iter") and "CallFrame" in (y.get("ty") or "")
+                       for y in hir_walk(it)):
+                    loops.append(x)
+    if not loops:
+        raise AnchorMissing("loop over the call stack in the error constructor of Vm::_run")
+    for n, lp in enumerate(loops):
+        key = "C15/F/_run/one-trace-entry-per-frame%s" % ("" if n == 0 else "#%d" % n)
+        # loop body = the Some(..) arm of the inner match
+        body = None
+        elem_ids = []
+        for y in hir_walk(lp):
+            if y is not lp and y.get("k") == "match" and str(y.get("source", "")).startswith("ForLoopDesugar"):
+                for a in y["arms"]:
+                    if a["body"].get("k") != "break":
+                        body = a["body"]
+                        elem_ids = [i for i, _n in pat_bindings(a["pat"])]
+                break
+        if body is None:
+            res.append(undecided("C15.F", key, run.loc(lp.get("ln")), "loop body not found"))
+            continue
+        jumps = [y for y in hir_walk(body) if y.get("k") in ("continue", "break", "ret")]
+        pushes = [y for y in hir_walk(body) if y.get("k") == "mcall" and y["name"] == "push" and "Trace" in (hir_strip(y["recv"]).get("ty") or "") + (y["recv"].get("ty_adj") or "")]
+        if not pushes:
+            res.append(bad("C15.F", key, run.loc(lp.get("ln")), "the loop over the call stack does not push trace entries"))
+            continue
+        anc = hu.control_ancestors(body)
+        probs = []
+        if jumps:
+            probs.append("the loop body contains `%s` (line %s): frames can be skipped" % (jumps[0]["k"], jumps[0].get("ln")))
+        ifs = {id(y): y for y in hir_walk(body) if y.get("k") in ("if", "match")}
+        for p in pushes:
+            for kind, nid in anc.get(id(p), ()):
+                node = ifs.get(nid)
+                if node is None:
+                    probs.append("push under a %s" % kind)
+                    continue
+                cond = hir_strip(node["cond"]) if node.get("k") == "if" else hir_strip(node["scrut"])
+                init = cond.get("init") if cond.get("k") == "let" else cond
+                init = hu.strip_casts(init) if init is not None else None
+                # allowed: <..>.trace.get(&<elem>.src_instr_ptr)
+                good = False
+                if init is not None and init.get("k") == "mcall" and init["name"] == "get":
+                    fc = hu.field_chain(init["recv"])
+                    arg_fields = [z for z in hir_walk(init["args"][0]) if z.get("k") == "field" and z["name"] == "src_instr_ptr"
+                                  and hir_local_id(hu.strip_all(z["e"])) in elem_ids]
+                    if fc and fc[1][-1:] == ["trace"] and arg_fields:
+                        good = True
+                if not good:
+                    probs.append("a trace entry is only pushed under a condition other than `program.trace.get(&frame.src_instr_ptr)` "
+                                 "being Some (line %s)" % node.get("ln"))
+        if probs:
+            res.append(bad("C15.F", key, run.loc(lp.get("ln")),
+                           "not every active call frame contributes its call card to the error trace: %s; trace[1..] is no longer the "
+                           "chain of call cards (e.g. direct recursion through one call card has equal neighbouring frames)" % "; ".join(probs)))
+        else:
+            res.append(ok("C15.F", key, run.loc(lp.get("ln")), "each frame's call position is looked up and pushed, no frame is skipped"))
+    return res
+
+
 RULES = [
     Rule("C15.I", rule_i, 40, "compiler child numbering equals Card::get_child for every card kind"),
     Rule("C15.P", rule_p, 50, "runtime errors are located at the failing instruction's opcode position"),
     Rule("C15.C", rule_c, 3, "call frames record the CallFunction opcode position"),
     Rule("C15.K", rule_k, 3, "compile errors raised by Compiler carry the current card"),
+    Rule("C15.F", rule_f, 1, "every active call frame contributes one trace entry"),
 ]
